@@ -9,7 +9,7 @@
 (* LattRule = "origin" is the specification, "asbuilt" the deviation found *)
 (* at the pinned commit (33 counterexamples).                              *)
 (***************************************************************************)
-EXTENDS SpaceGroup, TLC, Json, IOUtils
+EXTENDS Settings, TLC, Json, IOUtils
 
 CONSTANTS LattRule, NBlocks
 
@@ -54,6 +54,8 @@ TableLookupUnique == phase = "axioms" => \A j \in Rows : S(j) = S(row) => SG[j].
 TableCentering == phase = "axioms" =>
    LET T == CenteringVecs(LattNumber(SG[row].centering))
    IN \A k \in DOMAIN T : ShiftCode(IdentityCode, T[k]) \in S(row)
+(* the setting label of the row means what International Tables say it means, relative to the other rows of its number *)
+TableSettings == phase = "axioms" => (PermChecks /\ SettingOK(SG, row))
 ReduceShrinks == phase = "reduce" => (Len(red) <= Len(SG[row].ops) /\ red[1] = IdentityCode /\ NoDup(red))
 RoundTrip == phase = "done" => (CodeSet(full) = S(row) /\ Len(full) = Len(SG[row].ops))
 =============================================================================
